@@ -2205,6 +2205,12 @@ impl<'a> Socket<'a> {
         if self.remote_win_len != 0 && self.timer.is_zero_window_probe() {
             tcp_trace!("stopping zero-window-probe timer");
             self.timer.set_for_idle(cx.now(), self.keep_alive);
+            if self.remote_last_seq != self.local_seq_no {
+                // Data sent before the window closed is still unacknowledged:
+                // it needs its retransmission timer back.
+                let rto = self.rtte.retransmission_timeout();
+                self.timer.set_for_retransmit(cx.now(), rto);
+            }
         }
 
         let payload_len = payload.len();
